@@ -8,6 +8,7 @@
 package nebula
 
 import (
+	"bytes"
 	"log/slog"
 	"net/netip"
 	"time"
@@ -39,6 +40,7 @@ func exists[T any](f func(T) bool) bool { return true }
 func elems[T any](s []T, r ...int) bool { return true }
 func fresh[T any](p *T) bool            { return true }
 func clock() time.Time                  { return time.Now() }
+func same[T any](a, b T) bool           { return true }
 func mapof[K comparable, V any](m map[K]V) bool { return true }
 func has[K comparable, V any](m map[K]V, k K) bool {
 	_, ok := m[k]
@@ -563,12 +565,9 @@ func specIncoming(c *conn) bool {
 // configuration / certificates or build a brand-new firewall; none of them
 // touches the installed firewall or its conntrack table.
 //@ func (*PKI).getCertState
-//@   trusted atomic pointer load of the current certificate state
-//@   ensures result != nil
-//@   assigns nothing
+//@   inline
 //@ func (*CertState).getCertificate
-//@   trusted returns one of the state's certificates
-//@   assigns nothing
+//@   inline
 //@ func github.com/slackhq/nebula/config.(*C).HasChanged
 //@   trusted compares old and new settings maps; reads only
 //@   ensures result == c.HasChanged(k)
@@ -593,7 +592,7 @@ func specIncoming(c *conn) bool {
 // are revalidated lazily by inConns) unless the 16-bit version wrapped to 0.
 //@ func (*Interface).reloadFirewall
 //@   props C19
-//@   requires f != nil && f.pki != nil && f.firewall != nil && f.firewall.Conntrack != nil && f.l != nil && c != nil
+//@   requires f != nil && f.pki != nil && f.pki.cs.Load() != nil && f.firewall != nil && f.firewall.Conntrack != nil && f.l != nil && c != nil
 //@   old fw0 = f.firewall
 //@   old ver0 = f.firewall.rulesVersion
 //@   old ct0 = f.firewall.Conntrack
@@ -683,8 +682,59 @@ func specInactive(cm *connectionManager, h *HostInfo, now time.Time) bool {
 //@ func (*LockingTimerWheel).Add
 //@   trusted frame abstraction: modifies only the wheel's own lists/items/cache (timeout.go)
 //@   assigns nothing
+
+// Re-handshake policy: a handshake is started exactly when the local
+// certificate changed (removed; a newer version the peer already uses is
+// available; a different signature; below the configured initiating version)
+// or the message counter passed the rekey threshold. `started` counts calls of
+// StartHandshake (an effect counter incremented by that function's contract).
+
+//@ func specNeedsRehandshake
+//@   pure
+func specNeedsRehandshake(cm *connectionManager, h *HostInfo) bool {
+	cs := cm.intf.pki.cs.Load()
+	cur := h.ConnectionState.myCert
+	mine := cs.getCertificate(cur.Version())
+	if mine == nil {
+		return true
+	}
+	peer := h.ConnectionState.peerCert
+	if peer != nil && cur.Version() < peer.Certificate.Version() && cs.getCertificate(peer.Certificate.Version()) != nil {
+		return true
+	}
+	return !bytes.Equal(cur.Signature(), mine.Signature()) || cur.Version() < cs.initiatingVersion ||
+		h.ConnectionState.messageCounter.Load() >= RehandshakeAfterMessages
+}
+
+//@ func (*HandshakeManager).StartHandshake
+//@   trusted starts (or joins) a pending handshake for the address; does not touch established tunnels' liveness state
+//@   effect started
+//@   assigns nothing
+//@ func github.com/slackhq/nebula/cert.(Certificate).Version
+//@   trusted accessor of an immutable certificate
+//@   ensures result == self.Version()
+//@   assigns nothing
+//@ func github.com/slackhq/nebula/cert.(Certificate).Signature
+//@   trusted accessor of an immutable certificate
+//@   ensures same(result, self.Signature())
+//@   assigns nothing
+
+//@ func (*connectionManager).tryRehandshake
+//@   props C30
+//@   ghost started int = 0
+//@   requires cm != nil && cm.intf != nil && cm.intf.pki != nil && cm.intf.pki.cs.Load() != nil && cm.intf.handshakeManager != nil && cm.l != nil
+//@   requires hostinfo != nil && hostinfo.ConnectionState != nil && hostinfo.ConnectionState.myCert != nil && len(hostinfo.vpnAddrs) >= 1
+//@   requires[certs] implies(hostinfo.ConnectionState.peerCert != nil, hostinfo.ConnectionState.peerCert.Certificate != nil)
+//@   ensures[policy] started == ite(old(specNeedsRehandshake(cm, hostinfo)), 1, 0)
+
+// shouldSwapPrimary: only the side whose peer address is not below its own may
+// swap, so for two nodes with different addresses at most one side swaps.
 //@ func (*connectionManager).shouldSwapPrimary
-//@   trusted reads tunnel and certificate state only (its ordering rule is checked separately)
+//@   props C30
+//@   requires cm != nil && cm.intf != nil && cm.intf.pki != nil && cm.intf.pki.cs.Load() != nil && current != nil && current.ConnectionState != nil && current.ConnectionState.myCert != nil
+//@   requires len(current.vpnAddrs) >= 1 && len(cm.intf.myVpnAddrs) >= 1
+//@   ensures[order]   implies(result, current.vpnAddrs[0].Compare(cm.intf.myVpnAddrs[0]) >= 0)
+//@   ensures[spent]   implies(result, current.ConnectionState.messageCounter.Load() < RehandshakeAfterMessages)
 //@   assigns nothing
 
 //@ func (*connectionManager).getAndResetTrafficCheck
@@ -709,7 +759,8 @@ func specInactive(cm *connectionManager, h *HostInfo, now time.Time) bool {
 //@ func (*connectionManager).makeTrafficDecision
 //@   props C30
 //@   requires cm != nil && cm.hostMap != nil && cm.hostMap.Indexes != nil && cm.hostMap.Hosts != nil && cm.intf != nil && cm.intf.pki != nil && cm.l != nil && cm.punchy != nil && cm.trafficTimer != nil
-//@   requires[wf] implies(cm.hostMap.Indexes[localIndex] != nil, len(cm.hostMap.Indexes[localIndex].vpnAddrs) >= 1)
+//@   requires[wf] implies(cm.hostMap.Indexes[localIndex] != nil, len(cm.hostMap.Indexes[localIndex].vpnAddrs) >= 1 && cm.hostMap.Indexes[localIndex].ConnectionState != nil && cm.hostMap.Indexes[localIndex].ConnectionState.myCert != nil)
+//@   requires[me] len(cm.intf.myVpnAddrs) >= 1 && cm.intf.pki.cs.Load() != nil
 //@   old hi = cm.hostMap.Indexes[localIndex]
 //@   old invalid = specInvalidCert(cm, now, cm.hostMap.Indexes[localIndex])
 //@   old exhausted = specExhausted(cm.hostMap.Indexes[localIndex])
